@@ -112,7 +112,8 @@ class Explorer:
                 self.by_target_all[c.target].append(c)
         self.invariants = invariants
         self.types = TypeParser(index, ['fpy2.number', 'fpy2.utils', 'fpy2', 'fpy2.ast', 'fpy2.analysis',
-                                        'spec.c02', 'fpy2.number.context', 'fpy2.transform.path', 'fpy2.transform.cursor', 'fpy2.transform.error'])
+                                        'spec.c02', 'fpy2.number.context', 'fpy2.transform.path', 'fpy2.transform.cursor', 'fpy2.transform.error',
+                                        'fpy2.analysis.format_infer'])
         # stand-in classes for external objects (Python ast nodes) live in spec modules; searched last
         self.types.default_modules += [m for m in ('spec.c06',) if index.module(m) is not None]
         self.intrinsics = Intrinsics(self)
@@ -276,6 +277,40 @@ class Explorer:
                 return None
         return c
 
+    def args_fit(self, c: Contract, info: FunctionInfo, args, kwargs) -> bool:
+        """do the actual arguments have the kinds the contract declares (object vs scalar)?  A contract
+        written for `other: RealFloat` says nothing about a call with a float operand: such calls are inlined."""
+        names = [a.arg for a in info.node.args.posonlyargs + info.node.args.args]
+        vals = dict(zip(names, args))
+        vals.update(kwargs)
+        for p, tstr in c.params.items():
+            if p not in vals:
+                continue
+            try:
+                t = self.types.parse_str(tstr, info.module.name, info.cls)
+            except Exception:
+                continue
+            if not self._fits(vals[p], t):
+                return False
+        return True
+
+    def _fits(self, v, t) -> bool:
+        k = t[0]
+        if k == 'union':
+            return any(self._fits(v, a) for a in t[1])
+        if k == 'obj':
+            return isinstance(v, SObj) and v.cls is not None and self.index.is_subclass(v.cls, t[1])
+        if k == 'none':
+            return v is None
+        if k in ('int', 'bool', 'float', 'frac', 'fconst', 'enum'):
+            if isinstance(v, SObj):
+                return False
+            if k != 'none' and v is None:
+                return False
+            if k in ('int', 'bool', 'frac', 'enum') and isinstance(v, (float, SymFloat)):
+                return False
+        return True
+
     # --------------------------------------------------------- contract call
     def _call_spec(self, P: Path, fn: FunctionInfo, bound: dict, extra: dict | None = None):
         names = [a.arg for a in fn.node.args.args]
@@ -385,7 +420,12 @@ class Explorer:
             extra = {'result': result}
             if needs_old:
                 extra['old'] = old
-            for k, cond in self._call_spec(P, c.post, bound, extra).items():
+            P.hints_off = getattr(P, 'hints_off', 0) + 1      # case_split hints are for the contract's own proof
+            try:
+                clauses = self._call_spec(P, c.post, bound, extra)
+            finally:
+                P.hints_off -= 1
+            for k, cond in clauses.items():
                 cond = P.truthy(cond)
                 if cond is False:
                     # A concretely false callee postcondition prunes the path.  That is normal when the fresh
@@ -542,7 +582,7 @@ class Explorer:
         """Explicit case splits requested by the contract: list of dict param -> concrete value spec."""
         out = [{}]
         for p in c.split:
-            tstr = c.params[p]
+            tstr = c.params[p] if p in c.params else c.overrides[p]     # a field path listed in `overrides`
             t = self.types.parse_str(tstr, info.module.name if info else None, info.cls if info else None)
             alts = []
             if t[0] == 'enum':
@@ -564,6 +604,8 @@ class Explorer:
         cls = info.cls if info else None
         for k, v in c.overrides.items():
             self.overrides[k] = self.types.parse_str(v, modname, cls)
+            if k in case and case[k][0] == 'alt':          # case split on an overridden field type
+                self.overrides[k] = self.overrides[k][1][case[k][1]]
         bound = {}
         P.param_types = {}
         is_init = info is not None and info.name == '__init__'
@@ -760,6 +802,21 @@ class Explorer:
             g = z3.BoolVal(False)
         else:
             g = as_z3bool(goal)
+        if not skip_first and self.current is not None and self.current.opts.get('light_first', False):
+            # stage 0 (opt-in): only the hypotheses free of pow2/bl/div terms.  Dropping hypotheses is sound;
+            # it keeps goals of plain linear arithmetic away from an irrelevant non-linear context.
+            light = [f for f in facts_pc if not self._is_heavy_formula(f)]
+            if len(light) < len(facts_pc):
+                s0 = z3.Solver()
+                s0.set('timeout', 2000)
+                for f in light:
+                    s0.add(f)
+                s0.add(z3.Not(g))
+                for a_ in theory.instantiate(light + [z3.Not(g)])[0]:
+                    s0.add(a_)
+                self.stats['queries'] += 1
+                if s0.check() == z3.unsat:
+                    return 'unsat', time.time() - t0, 'z3-light', None
         formulas = list(facts_pc) + [z3.Not(g)]
         if self.current is not None and self.current.opts.get('solve_eqs'):
             # opt-in preprocessing: eliminate constants defined by equalities (callee post `r.f == term`)
@@ -787,7 +844,8 @@ class Explorer:
                 return 'unsat', time.time() - t0, 'z3-noax', None
         light = self.current is not None and (self.current.opts.get('light_axioms', False) or self.current.opts.get('light_theory', False))
         # options light_axioms / light_theory: no product-splitting instances (PP.split / S6q)
-        ax, _ = theory.instantiate(formulas, heavy=not light, quant=self.quant)
+        tl = self.current is not None and self.current.opts.get('theory_light', False)   # one round, no product splitting
+        ax, _ = theory.instantiate(formulas, rounds=(1 if tl else 2), heavy=not (light or tl), quant=self.quant)
         s = z3.Solver()
         s.set('timeout', timeout_ms or self.timeout_ms)
         for f in formulas:
@@ -824,6 +882,11 @@ class Explorer:
             if r2 == z3.sat:
                 r = r2
         return ('sat' if r == z3.sat else 'unknown'), time.time() - t0, 'z3', smt2
+
+    @staticmethod
+    def _is_heavy_formula(f) -> bool:
+        p2, bls, dms, ipows = theory._collect1(f)
+        return bool(p2 or bls or dms or ipows)
 
     def _cvc5(self, smt2: str, tlimit_ms=20000):
         try:
